@@ -362,6 +362,17 @@ def build_tree(method, form, dists, names):
         arg = {k: dists[k] for k in sorted(dists, reverse=True)}
     elif form in ("DistanceMatrix", "quick_tree", "app"):
         arg = DistanceMatrix(dists)
+    elif form == "DistanceMatrix sliced before":
+        # a part of the matrix was looked at first: that must not change the matrix
+        arg = DistanceMatrix(dists)
+        before = (list(arg.names), arg.array.tolist())
+        arg[:2, :2]
+        arg[[names[0], names[-1]]]
+        if (list(arg.names), arg.array.tolist()) != before:
+            raise RuntimeError("taking a slice of a DistanceMatrix changed the matrix it was taken from")
+    elif form == "int dict":
+        # exact data given as python ints
+        arg = {k: (int(v) if float(v).is_integer() else v) for k, v in dists.items()}
     else:
         arg = dict(dists)
     if method == "nj":
@@ -459,8 +470,8 @@ def check_tree(method, form, names, metric, want_groups, acc, case, root_height=
 
 
 NJ_FORMS_MAIN = ("dict",)
-NJ_FORMS_ALL = ("dict", "upper", "lower-first", "DistanceMatrix", "quick_tree", "app")
-UPGMA_FORMS_ALL = ("dict", "upper", "lower-first", "DistanceMatrix")
+NJ_FORMS_ALL = ("dict", "upper", "lower-first", "DistanceMatrix", "quick_tree", "app", "int dict", "DistanceMatrix sliced before")
+UPGMA_FORMS_ALL = ("dict", "upper", "lower-first", "DistanceMatrix", "int dict", "DistanceMatrix sliced before")
 
 
 def nj_case(n, tree, lens, forms, acc):
